@@ -164,6 +164,20 @@ def _lookup_helper(fn: ast.FunctionDef) -> tuple[int, int, str] | None:
     return None
 
 
+def applied_args(fn: ast.FunctionDef, lookup: ast.AST) -> list[str] | None:
+    """When the looked-up table value is called (`op_fn(left, right)` / `TABLE[type(op)](left, right)`), the argument texts."""
+    bound = None
+    for w in ast.walk(fn):
+        if isinstance(w, ast.NamedExpr) and w.value is lookup:
+            bound = w.target.id
+        if isinstance(w, ast.Assign) and w.value is lookup and isinstance(w.targets[0], ast.Name):
+            bound = w.targets[0].id
+    for c in ast.walk(fn):
+        if isinstance(c, ast.Call) and (c.func is lookup or (bound and isinstance(c.func, ast.Name) and c.func.id == bound)) and not c.keywords:
+            return [norm(a) for a in c.args]
+    return None
+
+
 def operator_table(mod, fn: ast.FunctionDef):
     """The operator dispatch of a converter function, whatever its form:
     match on the operator, an isinstance chain, or a lookup (directly or through a helper) in a module-level
@@ -191,6 +205,20 @@ def operator_table(mod, fn: ast.FunctionDef):
                 tbl, default = n.args[h[0]].id, h[2]
         elif isinstance(n, ast.Subscript) and isinstance(n.value, ast.Name) and isinstance(n.slice, ast.Call) and norm(n.slice.func) == "type":
             tbl, default = n.value.id, "raise"
+        elif isinstance(n, ast.Call) and isinstance(n.func, ast.Attribute) and n.func.attr == "get" and isinstance(n.func.value, ast.Name) and len(n.args) == 1 \
+                and isinstance(n.args[0], ast.Call) and norm(n.args[0].func) == "type":
+            tbl = n.func.value.id
+            # `.get(..)` yields None for an unknown operator: that must be tested and refused
+            bound = None
+            for w in ast.walk(fn):
+                if isinstance(w, ast.NamedExpr) and w.value is n:
+                    bound = w.target.id
+                if isinstance(w, ast.Assign) and w.value is n and isinstance(w.targets[0], ast.Name):
+                    bound = w.targets[0].id
+            default = "none"
+            for g in ast.walk(fn):
+                if isinstance(g, ast.If) and bound and norm(g.test) in (f"{bound} is None", f"({bound} := {norm(n)}) is None") and classify_body(g.body) == "raise":
+                    default = "raise"
         if tbl is not None and isinstance(mod.assigns.get(tbl), ast.Dict):
             d = mod.assigns[tbl]
             return {norm(k).split(".")[-1]: norm(v) for k, v in zip(d.keys, d.values)}, default, n
